@@ -200,8 +200,9 @@ modelled skeleton. -/
 theorem C09_paths :
     Gen.Semver.gateSites.map (·.name) = ["pipe", "http_unary", "http_init"] ∧
     (∀ site ∈ Gen.Semver.gateSites, site.recognised = true ∧ site.exempt = describeName) ∧
-    Gen.Semver.checkSkeleton = expectedCheckSkeleton := by
-  refine ⟨by decide, by decide, ?_⟩
+    Gen.Semver.checkSkeleton = expectedCheckSkeleton ∧
+    Gen.Semver.componentUnbounded = true := by
+  refine ⟨by decide, by decide, ?_, by decide⟩
   rfl
 
 /-- **C09**: with a declared version, a call is let through iff it is introspection or the client
